@@ -16,8 +16,12 @@ Dims == [kind  : {"gpt", "mbr"},
          chunk : {"whole", "one", "c513", "pssp1"},
          \* what is streamed over what: a non-zero pattern, all zeroes, or a pattern whose odd physical
          \* sectors are zero - always onto a partition that already holds other non-zero bytes
-         data  : {"pat", "zero", "holes"}]
-Base == [kind |-> "gpt", start |-> "s2048", size |-> "z2048", lss |-> "512", pss |-> "512", rlen |-> "exact", chunk |-> "whole", data |-> "pat"]
+         data  : {"pat", "zero", "holes"},
+         \* retable = "replace": after the partitions have been looked up once, partition 1 of the SAME table
+         \* object is replaced by a new entry 4 sectors further on and the table is applied again; contents
+         \* must then go to and come from the partition's new place
+         retable : {"no", "replace"}]
+Base == [kind |-> "gpt", start |-> "s2048", size |-> "z2048", lss |-> "512", pss |-> "512", rlen |-> "exact", chunk |-> "whole", data |-> "pat", retable |-> "no"]
 Deviations(t) == Cardinality({f \in DOMAIN Base : t[f] # Base[f]})
 
 \* WritePartitionContents: stores the reader's bytes at the partition's own offset, touches
